@@ -191,7 +191,8 @@ Lemma shapes_equal_checked :
   sdp_fixed_index_src = sdp_fixed_index_layout /\ sdp_var_index_src = sdp_var_index_layout /\
   sdp_parse_fixed_src = sdp_parse_fixed_layout /\ sdp_parse_var_src = sdp_parse_var_layout /\
   sbc_parse_src = sbc_parse_layout /\ sbc_ser_src = sbc_ser_layout /\ aac_parse_src = aac_parse_layout /\
-  aac_ser_src = aac_ser_layout /\ aac_ser_src_outer = aac_ser_outer_layout.
+  aac_ser_src = aac_ser_layout /\ aac_ser_src_outer = aac_ser_outer_layout /\
+  sdp_list_exits_src = sdp_list_exits_layout /\ exits_restore_depth sdp_list_exits_src = true.
 Proof. repeat split; reflexivity. Qed.
 
 (* all model-is-layout statements together *)
